@@ -226,26 +226,53 @@ func pathDesc(s *an.PathState) string {
 
 // callErrNil: the facts say that the error result of call term c is nil.
 func callErrNil(s *an.PathState, c *an.Term) bool {
+	ei := errIndexOf(c)
 	for _, a := range s.Atoms {
 		if a.Op != "==" || !a.B.IsConst("nil") {
 			continue
 		}
-		cc, _ := a.A.CallOf()
-		if cc != nil && cc.K == c.K {
+		cc, i := a.A.CallOf()
+		if cc != nil && cc.K == c.K && (ei < 0 || i == ei || i == -1) {
 			return true
 		}
 	}
 	return false
 }
 
+// errIndexOf: the position of the error among the results of the call the term stands for (-1: unknown or none).
+func errIndexOf(c *an.Term) int {
+	if c == nil {
+		return -1
+	}
+	ci, ok := c.V.(ssa.CallInstruction)
+	if !ok {
+		if v, isV := c.V.(*ssa.Call); isV {
+			ci = v
+		} else {
+			return -1
+		}
+	}
+	res := ci.Common().Signature().Results()
+	for i := res.Len() - 1; i >= 0; i-- {
+		if res.At(i).Type().String() == "error" {
+			if res.Len() == 1 {
+				return -1
+			}
+			return i
+		}
+	}
+	return -1
+}
+
 // callErrNonNil: the facts say the error result of call c is non-nil.
 func callErrNonNil(s *an.PathState, c *an.Term) bool {
+	ei := errIndexOf(c)
 	for _, a := range s.Atoms {
 		if a.Op != "!=" || !a.B.IsConst("nil") {
 			continue
 		}
-		cc, _ := a.A.CallOf()
-		if cc != nil && cc.K == c.K {
+		cc, i := a.A.CallOf()
+		if cc != nil && cc.K == c.K && (ei < 0 || i == ei || i == -1) {
 			return true
 		}
 	}
